@@ -223,7 +223,14 @@ def num_eq(a, b, tol):
         return False
     if not isinstance(a, (int, float)) or not isinstance(b, (int, float)):
         return False
-    fa, fb = float(a) if not isinstance(a, float) else a, float(b) if not isinstance(b, float) else b
+    def _f(x):
+        try:
+            return float(x)
+        except OverflowError:      # a whole number beyond the float range
+            return float('inf') if x > 0 else float('-inf')
+    if isinstance(a, int) and isinstance(b, int):
+        return a == b
+    fa, fb = _f(a), _f(b)
     if math.isnan(fa) or math.isnan(fb):
         return math.isnan(fa) and math.isnan(fb)
     if a == b:
